@@ -444,6 +444,12 @@ func executorFindInsertionPoints(ctx *ExecutionContext, resultLock *sync.Mutex, 
 					return nil, errors.New("entry in result wasn't a map")
 				}
 
+				// an entry without an id is one that the fragment asking for the join does not apply to
+				// (a narrower type condition, @skip, @include): there is nothing to insert into it
+				if _, hasID := resultEntry["id"]; !hasID && pointI == len(targetPoints)-1 {
+					continue
+				}
+
 				// the point we are going to add to the list
 				entryPoint := fmt.Sprintf("%s:%v", foundSelection.Name, entryI)
 				if foundSelection.Alias != "" {
@@ -538,12 +544,14 @@ func executorFindInsertionPoints(ctx *ExecutionContext, resultLock *sync.Mutex, 
 					return nil, fmt.Errorf("Root value of result chunk was not an object. Point: %v Value: %v", point, rootValue)
 				}
 
+				// an object without an id is one that the fragment asking for the join does not apply to
+				// (a narrower type condition, @skip, @include): there is nothing to insert into it
+				id, hasID := rootObj["id"]
+				if !hasID {
+					return nil, nil
+				}
+
 				for i := range oldBranch {
-					// look up the id of the object
-					id := rootObj["id"]
-					if !ok {
-						return nil, errors.New("Could not find the id for the object")
-					}
 
 					oldBranch[i][pointI] = fmt.Sprintf("%s#%v", oldBranch[i][pointI], id)
 				}
